@@ -650,6 +650,21 @@ func (e *Eval) builtin(fr *frame, x *ssa.Call, name string, args []AV, st State)
 				}
 			}
 		}
+		if sv, ok := args[0].(SliceV); ok && fr.loop == nil && len(args) == 2 {
+			// append to a slice of integers (or other plain values) with known elements, built
+			// up from an empty slice of a local array or from nil: a new vector, longer
+			if vc, ok := st[sv.O].(VecC); ok && sv.O.Grown && len(vc.Elems) < 4096 {
+				if v, ok := args[1].(SliceV); ok {
+					if add, ok := st[v.O].(VecC); ok {
+						elems := append(append([]AV{}, vc.Elems...), add.Elems...)
+						o := e.newObj(okVec, x, "append")
+						o.Grown = true
+						e.setContentFresh(st, o, VecC{Elems: elems})
+						return SliceV{O: o}
+					}
+				}
+			}
+		}
 		return e.topOf(x.Type(), "append")
 	case "min", "max":
 		// integer operands with known bounds
